@@ -28,7 +28,7 @@ def run(chk):
     if env is None: return
     drv, impl = env
     rng = chk.rng
-    n = 150 if chk.tier == "quick" else 4000
+    n = 400 if chk.tier == "quick" else 4000
     base = corpus() + [gen_scn(rng, PROFILE, chk.hist) for _ in range(n)]
     base = [s for s in base if s.with_xq and not any(it[0] == 'R' for it in s.items)]
     variants = []   # (scenario with one stray line inserted, index of base, position)
